@@ -540,7 +540,14 @@ const (
 	hardLimit   = 120 * time.Second      // "still running" (no deadlock picture): reported only twice in a row
 	drainWait   = 5 * time.Second        // after the verdict the context is cancelled; wait this long for the walk to go away
 	gateWait    = 5 * time.Millisecond
+	// once a deadlock has been established in this process (the search is over, rapid is
+	// minimising the case and most candidates deadlock again) look sooner and more often;
+	// the verdict itself does not depend on these durations
+	fastProbeAfter = 100 * time.Millisecond
+	fastProbeEvery = 50 * time.Millisecond
 )
+
+var deadlockSeen atomic.Bool
 
 // failGate holds a failing fetch back until a second failing fetch is pending (or gateWait has
 // passed, or the context is done) and then releases both.
@@ -742,7 +749,11 @@ func execute(c Case, b *built) *observed {
 
 // waitWalk waits for the walk and fills o.err, or o.deadlock / o.hang.
 func waitWalk(o *observed, done chan error, walkGID *atomic.Int64, cancel func()) {
-	first := time.NewTimer(probeAfter)
+	after, every := probeAfter, probeEvery
+	if deadlockSeen.Load() {
+		after, every = fastProbeAfter, fastProbeEvery
+	}
+	first := time.NewTimer(after)
 	defer first.Stop()
 	select {
 	case o.err = <-done:
@@ -752,7 +763,7 @@ func waitWalk(o *observed, done chan error, walkGID *atomic.Int64, cancel func()
 	start := time.Now()
 	stable, lastSig := 0, ""
 	for {
-		tm := time.NewTimer(probeEvery)
+		tm := time.NewTimer(every)
 		select {
 		case o.err = <-done:
 			tm.Stop()
@@ -771,6 +782,7 @@ func waitWalk(o *observed, done chan error, walkGID *atomic.Int64, cancel func()
 		lastSig = p.sig
 		if stable >= probeStable {
 			o.deadlock = p.desc
+			deadlockSeen.Store(true)
 			break
 		}
 		if time.Since(start) > hardLimit {
